@@ -86,7 +86,7 @@ def rand_scalar(pr):
     return pr.choice([2, -3, 0.5, -1.25, 1.5 + 0.5j, np.float64(0.75), np.int64(2), 3.0])
 
 
-F_OPS = ["a+b", "a-b", "a*b", "s*a", "a*s", "-a", "s-a", "s+a", "a+s", "a-s", "a/s", "a**2", "a==b", "a!=b", "a+=b", "a*=b", "a-=b"]
+F_OPS = ["a+b", "a-b", "a*b", "s*a", "a*s", "-a", "s-a", "s+a", "a+s", "a-s", "a/s", "a**2", "a==b", "a!=b", "a+=b", "a*=b", "a-=b", "a+=b", "a+=b", "a+b"]
 
 
 def apply_op(opname, a, b, s):
@@ -134,6 +134,9 @@ def run_fermion(case, ctx):
     if attrs != (None, None, None):
         kinds = ["tangelo"] * 3   # mixing annotated Tangelo operators with bare openfermion ones is documented to raise
     pool_terms = [rand_fterms(pr, NM) for _ in range(3)]
+    if pr.random() < 0.35:
+        # an empty accumulator, as in  acc = FermionOperator(); acc += a; acc += b
+        pool_terms[pr.randrange(3)] = {}
     pool = [mk_fermion(k, t, attrs) for k, t in zip(kinds, pool_terms)]
     shadow = [fmat(p) for p in pool]
     snaps = [snap(p) for p in pool]
